@@ -493,6 +493,13 @@ def linecol(ctx, xh, xm3):
         def W():
             return rng.choice(["", " ", "\t"]) + E() + rng.choice(["", " ", "  "])
         out = []
+        ctr = [0]
+
+        def uniq():
+            # declaration names are unique within a document (a repeated attribute / entity declaration is legal but
+            # draws a warning, which is not this stream's subject)
+            ctr[0] += 1
+            return ctr[0]
         marks = []          # offsets just after each start tag
         lsep_ws = [False]
 
@@ -512,9 +519,9 @@ def linecol(ctx, xh, xm3):
                 if r < 0.25:
                     add("<!ELEMENT r" + W() + "ANY" + rng.choice(["", W()]) + ">" + E())
                 elif r < 0.5:
-                    add("<!ATTLIST r" + W() + "a%d CDATA" % rng.randrange(99) + W() + "#IMPLIED" + W() + "b%d CDATA" % rng.randrange(99) + W() + "'d" + E() + "v'>" + E())
+                    add("<!ATTLIST r" + W() + "a%d CDATA" % uniq() + W() + "#IMPLIED" + W() + "b%d CDATA" % uniq() + W() + "'d" + E() + "v'>" + E())
                 elif r < 0.7:
-                    add("<!ENTITY e%d" % rng.randrange(999) + W() + "'v" + E() + "w'" + rng.choice(["", W()]) + ">" + E())
+                    add("<!ENTITY e%d" % uniq() + W() + "'v" + E() + "w'" + rng.choice(["", W()]) + ">" + E())
                 elif r < 0.85:
                     add("<!--c" + E() + "d-->" + E())
                 else:
@@ -589,6 +596,7 @@ def linecol(ctx, xh, xm3):
         ev, errs, fh = C02.parse_impl(o)
         got = [tuple(t.split("@")[1].split(":")) for t in ev.split(" ") if t.startswith("S") and "@" in t]
         want = exp[k]
+        errs = [e for e in errs if not e.startswith("W:")]       # warnings are not errors
         if errs or got != want:
             if not errs and v11 and "\u2028" in text and len(got) == len(want) and ctx.find_known("F46") and \
                     all(int(g[0]) <= int(w[0]) for g, w in zip(got, want)):
